@@ -409,6 +409,7 @@ type Step struct {
 	spec   *common.Spec
 	gvr    common.Root
 	repair bool
+	extra  map[string]int // counters the builder wants added on commit
 }
 
 // Envelope builds the envelope of the step's block for common.StateTransition on a copy of step.Pre.
@@ -567,8 +568,18 @@ func (c *Chain) NextSlot(o *SlotOpts) (step *Step, err error) {
 		return nil, err
 	}
 	skip := o.Skip
-	if !skip && !o.Propose && c.Rng.Float64() < c.Policy.SkipProb {
+	showcase := false
+	if c.Policy.Showcase {
+		_, showcase = forkBoundary(c.Spec, slot)
+	}
+	if !skip && !o.Propose && !showcase && c.Rng.Float64() < c.Policy.SkipProb {
 		skip = true
+		if c.Policy.Showcase {
+			// the epoch before a fork boundary stays complete, so that the eth1 votes can be timed
+			if _, near := nextForkBoundary(c.Spec, slot, c.Spec.SLOTS_PER_EPOCH); near {
+				skip = false
+			}
+		}
 	}
 	if !skip {
 		if sl, err := c.isSlashed(work, step.Proposer); err != nil {
@@ -588,6 +599,21 @@ func (c *Chain) NextSlot(o *SlotOpts) (step *Step, err error) {
 	mix := o.Mix
 	if mix == nil {
 		mix = c.Policy.draw(c.Rng)
+		if showcase { // every signed operation kind in the first block of the fork
+			atLeast := func(p *int) {
+				if *p < 1 {
+					*p = 1
+				}
+			}
+			atLeast(&mix.ProposerSlashings)
+			atLeast(&mix.AttesterSlashings)
+			atLeast(&mix.Exits)
+			atLeast(&mix.BLSChanges)
+			if mix.SyncParticipation < 0.5 {
+				mix.SyncParticipation = 0.9
+			}
+			mix.NoAttestations = false
+		}
 	}
 	blk, err := c.buildBlock(work.BeaconState, wepc, slot, step, mix)
 	if err != nil {
